@@ -1,12 +1,15 @@
 (* Proofs/HpackTotal.v (group h2): the HPACK decoder is total on EVERY byte string and every decoder
    state: it never panics, the parse loop needs at most one iteration per buffered byte (the fuel
    `length buf` is never exhausted), and every representation consumes at least one byte. (C08 part) *)
-From Coq Require Import List NArith Arith Lia Bool.
+From Coq Require Import List NArith ZArith Arith Lia Bool.
 From Coq Require Import ZifyBool ZifyNat ZifyN.
 From MV Require Import Lib.HBits Gen.HpackTables Gen.H2Src Model.Hpack
   Proofs.HpackInt Proofs.HpackHuffman Proofs.HpackString Proofs.HpackRepr.
 Import ListNotations.
 Open Scope N_scope.
+
+Lemma nth_some_lt' : forall {A} (l : list A) n x, nth_error l n = Some x -> (n < length l)%nat.
+Proof. intros A l n x H. apply nth_error_Some. rewrite H. discriminate. Qed.
 
 Definition good {A} (x : hout A) : Prop := x <> HPanic /\ x <> HFuel.
 
@@ -180,4 +183,24 @@ Proof.
     + destruct (multi && is_size_update (b :: tl)); cbn; lia.
     + cbn; lia.
     + cbn; lia.
+Qed.
+
+(* the variant of Decoder.at that tests the range after the conversion to int panics on indexes 2^63+61 .. 2^63+126
+   (the integers readVarInt still accepts beyond 2^63), whatever the table *)
+Lemma tab_at_int_cmp_panics : forall t k, 61 <= k <= 126 ->
+  static_len = 61 -> tab_at_gen false t (9223372036854775808 + k) = HPanic.
+Proof.
+  intros t k Hk Hs. unfold tab_at_gen. rewrite Hs.
+  assert (E0 : (9223372036854775808 + k =? 0) = false) by lia. rewrite E0.
+  assert (E1 : (9223372036854775808 + k <=? 61) = false) by lia. rewrite E1.
+  unfold go_int.
+  assert (E2 : (9223372036854775808 + k <? 9223372036854775808) = false) by lia. rewrite E2.
+  set (dl := N.of_nat (length (dt_ents t))).
+  assert (E3 : (Z.of_N dl <? Z.of_N (9223372036854775808 + k) - 18446744073709551616 - Z.of_N 61)%Z = false) by lia.
+  rewrite E3.
+  unfold index_atZ.
+  assert (E4 : (Z.of_N dl - (Z.of_N (9223372036854775808 + k) - 18446744073709551616 - Z.of_N 61) <? 0)%Z = false) by lia.
+  rewrite E4. unfold index_at.
+  destruct (nth_error (dt_ents t) _) eqn:En; [|reflexivity].
+  exfalso. apply nth_some_lt' in En. subst dl. lia.
 Qed.
